@@ -113,6 +113,13 @@ def main():
                 _, A0 = module_for(seed, ia)
                 plain = repo.mod('proof').ProofExp(axioms=list(dict.fromkeys(list(A0.get_claims()) + list(A0.get_axioms()))))
                 ser_all(plain, scratch, 'm')
+                # ... and one that registers only SOME of A's notations (an outer notation without the nested one and the like): a rendering
+                # remembered from that run is wrong for A, whose table knows more
+                nots_ = list(A0.get_notations())
+                if len(nots_) >= 2:
+                    half = [n_ for n_ in nots_ if rng.random() < 0.5] or nots_[:1]
+                    some = repo.mod('proof').ProofExp(axioms=list(dict.fromkeys(list(A0.get_claims()) + list(A0.get_axioms()))), notations=half)
+                    ser_all(some, scratch, 'm')
                 _, A = module_for(seed, ia)
                 res = {'B,A': ser_all(A, scratch, 'm'), 'A,A': ser_all(A, scratch, 'm')}
                 ser_all(B, scratch, 'm')
